@@ -168,10 +168,11 @@ class Sim:
             else:
                 if self.now < t:
                     self.now = t
-                self.deliver(payload)
+                self.deliver(payload, t)
         if self.end < wake:
             raise Stop()
-        self.now = wake
+        if self.now < wake:          # (a sleep inside a handler may have moved the clock past `wake`)
+            self.now = wake
 
     def push(self, t, kind, payload):
         self.seq += 1
@@ -181,8 +182,9 @@ class Sim:
         self.obs.append([f2b(self.now), what])
 
     # -- delivery ------------------------------------------------------------------------------
-    def deliver(self, m):
-        self.delivered.append([f2b(self.now), m])
+    def deliver(self, m, t):
+        # recorded with its *scheduled* time: the model applies the same rule (clock = max(now, t))
+        self.delivered.append([f2b(t), m])
         event, data = msg_to_socket(m)
         h = self.client.handlers.get(event) if self.client else None
         if h is None:
